@@ -1,4 +1,5 @@
 import MithrilModel.Proto
+import MithrilModel.Handlers.C08
 import MithrilModel.Handlers.C17
 import MithrilModel.Handlers.C18
 
@@ -9,6 +10,7 @@ def dispatch (line : String) : String :=
     let h : Option String :=
       if r.op.startsWith "c17." then Handlers.C17.handle r
       else if r.op.startsWith "c18." then Handlers.C18.handle r
+      else if r.op.startsWith "c08." then Handlers.C08.handle r
       else none
     h.getD "bad-request"
 
